@@ -86,6 +86,19 @@ def period(objs, spec):
     return lo, hi
 
 
+def full_period(objs):
+    """First and last hour (ns, UTC) covered by any hourly value of the model: the modelled period extends past the
+    last journey start (later steps, multi-hour requests, storage)."""
+    lo = hi = None
+    for c in snap.snapshot(S.reachable(objs)).values():
+        for x in (c["__dict__"].values() if isinstance(c, dict) and "__dict__" in c else [c]):
+            if isinstance(x, dict) and "t" in x and x.get("aware") and len(x["t"]):
+                a, b = int(x["t"][0]), int(x["t"][-1])
+                lo = a if lo is None else min(lo, a)
+                hi = b if hi is None else max(hi, b)
+    return lo, hi
+
+
 def sim_date(kind, k, lo, hi):
     to_dt = lambda ns: datetime(1970, 1, 1, tzinfo=timezone.utc) + timedelta(microseconds=ns // 1000)
     if kind == "first":
@@ -95,10 +108,11 @@ def sim_date(kind, k, lo, hi):
     if kind == "interior":
         n_hours = max(1, (hi - lo) // (3600 * 10 ** 9))
         return to_dt(lo + (k % (n_hours + 1)) * 3600 * 10 ** 9)
+    # outside dates are mostly *just* outside (1-12 h): a bound computed with the wrong UTC offset is off by a few hours
     if kind == "before":
-        return to_dt(lo) - timedelta(hours=5 + k)
+        return to_dt(lo) - timedelta(hours=1 + k % 12 if k % 5 else 24 * 3 + k)
     if kind == "after":
-        return to_dt(hi) + timedelta(days=3, hours=k)
+        return to_dt(hi) + timedelta(hours=1 + k % 12 if k % 5 else 24 * 3 + k)
     return to_dt(lo).replace(tzinfo=None)
 
 
